@@ -171,6 +171,17 @@ def run(rep, tier="quick", replay=None, evidence_dir=None):
                "the decoder rejects (or treats specially) some decoded values through this comparison, %d site(s), table allows %d: values the encoder writes may no longer decode" % (len(locs), budget), locs[0])
     rep.analysed["decoder functions scanned for tests on decoded scalars"] = nfun6
     rep.floor("C01.R6", "decoder functions that read scalars", nfun6, 8)
+    # ---------------- R7 the serde datum writer frames values the way the decoder reads them (imported)
+    rep.rule("C01.R7", "a datum written through the serde path is framed as the decoder reads it: block headers count whole items, union index and payload belong together, record fields come in schema order (C02.R3/R5, C16.R5 instances)")
+    import c16
+    sub16 = common.Report("C16", tier, 0)
+    c16.run(sub16, tier=tier, collect_only=True)
+    n7 = 0
+    for o in sub16.obligations:
+        if o["rule"] in ("C16.R4", "C16.R5"):
+            n7 += 1
+            rep.ob("C01.R7", "[%s] %s" % (o["rule"], o["instance"]), o["ok"], o["detail"], o["loc"])
+    rep.floor("C01.R7", "imported serde-writer framing obligations", n7, 30)
     # ---------------- R4
     val = prog.body("types::Value::validate_internal")
     rep.ob("C01.R4", "validate_internal borrows the value immutably", val.local_ty(1).startswith("&types::Value") and not val.local_ty(1).startswith("&mut"), "self type %s" % val.local_ty(1), val.loc())
